@@ -152,7 +152,7 @@ class R3(R2):
 
     def __reduce__(self):
         state = {k: v for k, v in self.__dict__.items() if k[0] != 'p'}
-        return (R3, self._args(), state)
+        return (type(self), self._args(), state)
 
 
 class RL:
@@ -170,7 +170,7 @@ class RL:
 
     def __reduce__(self):
         state = {k: v for k, v in self.__dict__.items() if k[0] != 'i'}
-        return (RL, (), state or None, iter([getattr(self, 'i%d' % i) for i in range(self._n())]))
+        return (type(self), (), state or None, iter([getattr(self, 'i%d' % i) for i in range(self._n())]))
 
 
 class RD:
@@ -180,7 +180,7 @@ class RD:
         setattr(self, 'd_%s' % (k,), v)
 
     def __reduce__(self):
-        return (RD, (), None, None, iter([(k[2:], v) for k, v in self.__dict__.items()]))
+        return (type(self), (), None, None, iter([(k[2:], v) for k, v in self.__dict__.items()]))
 
 
 class CR:
@@ -272,6 +272,18 @@ SHAPE_OF = {list: 'list', dict: 'dict', tuple: 'tuple', set: 'set', P: 'P', S: '
             collections.OrderedDict: 'OD', MO: 'MO', XInt: 'XS', XStr: 'XS', XFloat: 'XS', XBytes: 'XS', XComplex: 'XS'}
 
 
+# Inherited twins: an empty subclass of every class of the family, so that each protocol method (__setstate__,
+# __getstate__, __reduce__, __getnewargs__, __setattr__, __slots__, extend, __setitem__) is found on a BASE class of the
+# object's class (h = "inh" in spec/Reduce.tla) instead of on the class itself.
+TWIN = {}
+for _c in (P, PA, S, SD, GS, GT, GV, GC, GL, NA, NT, R2, R3, RL, RD, CR, ML, MD, MS, MO, XInt, XStr, XFloat, XBytes, XComplex):
+    _t = type(_c.__name__ + '_i', (_c,), {'__module__': __name__, '__doc__': 'inherits everything from ' + _c.__name__})
+    globals()[_t.__name__] = _t
+    TWIN[_c] = _t
+    SHAPE_OF[_t] = SHAPE_OF[_c]
+SHAPE_OF[TWIN[CR]] = 'CRi'          # not in copyreg.dispatch_table (exact class): reduces like a plain object
+
+
 class Unbuildable(Exception):
     pass
 
@@ -291,14 +303,16 @@ def build(graph, pick=None):
     shells = {'list': list, 'dict': dict, 'set': set, 'P': P, 'S': S, 'SD': SD, 'GS': GS, 'GT': GT, 'GV': GV, 'GC': GC, 'GL': GL, 'PA': PA,
               'R2': R2, 'R3': R3, 'RL': RL, 'RD': RD, 'CR': CR, 'ML': ML, 'MD': MD, 'MS': MS,
               'OD': collections.OrderedDict, 'MO': MO}
+    def home(o, c):
+        return TWIN[c] if o.get('h') == 'inh' and c in TWIN else c
     for i, o in enumerate(graph):
         if o['s'] == 'XS':                      # the class follows the kind of the value leaf
             v = val(o['p'][0], i, 0)
             cs = XS_BY_KIND[o['p'][0]['l']]
-            objs[i] = cs[(pick('XS', i, 0) if pick else 0) % len(cs)](v)
+            objs[i] = home(o, cs[(pick('XS', i, 0) if pick else 0) % len(cs)])(v)
             state[i] = 2
         elif o['s'] not in IMMUTABLE:
-            c = shells[o['s']]
+            c = home(o, shells[o['s']])
             objs[i] = c.__new__(c)
             if o['s'] in ('OD', 'MO'):
                 objs[i].__init__()
@@ -318,9 +332,9 @@ def build(graph, pick=None):
         if o['s'] == 'tuple':
             objs[i] = tuple(items)
         elif o['s'] == 'NA':
-            objs[i] = NA(*items)
+            objs[i] = home(o, NA)(*items)
         else:
-            objs[i] = NT(*(items + [None, None])[:2])
+            objs[i] = home(o, NT)(*(items + [None, None])[:2])
         state[i] = 2
     for i in range(n):
         make(i)
